@@ -71,7 +71,7 @@ def check_case(ctx, g, model=None, stopping=True, limit=5.0):
             continue
         r = judge(ctx, g, prune, o, stopping)
         nt = nt or bool(r)
-        if model is not None and len(g["players"]) <= 12 and stopping and g.get("_meta", {}).get("family") != "slow_reward":
+        if model is not None and len(g["players"]) <= 12 and stopping and g.get("_meta", {}).get("family") not in ("slow_reward", "big_slow_reward"):
             model.add("solve", dict(wire.game_payload(g, exact=True), prune=prune, fuel=20000), expect=o,
                       inp={"game": gen.desc(g), "prune": prune}, suite="exact.rewards",
                       cmp=wire.measure_dev(ctx, "float_vs_exact_max_abs_dev", 2, "rewards"))
@@ -88,6 +88,9 @@ def through_run_games(ctx, games):
     """run_games()[name]['rewards'] must be what solve() returns (observe_at of C02)"""
     cr = repo("conditionalrewards")
     d = {f"g{i}": gen.desc(g) for i, g in enumerate(games)}
+    for i in range(len(games)):
+        if i % 3 == 1:
+            d[f"g{i}"]["prune_states"] = (i % 2 == 0)     # a description that was also used as StochasticGame(**g) kwargs
     with quiet():
         res = cr.run_games(d)
     for i, g in enumerate(games):
@@ -114,6 +117,10 @@ def run(ctx, model=None):
         check_case(ctx, gen.parallel_dead_game(rng), model)
     for k in range(3 if ctx.quick() else 20):
         check_case(ctx, gen.slow_reward_game(rng), model, limit=60.0)
+    for k in range(8 if ctx.quick() else 100):
+        check_case(ctx, gen.tiny_best_game(rng), model)
+        check_case(ctx, gen.tiny_dead_decimal_game(rng), model)
+        check_case(ctx, gen.big_slow_reward_game(rng), model, limit=60.0)
     for k in range(20 if ctx.quick() else 300):
         check_case(ctx, gen.integer_game(rng), None)
         check_case(ctx, gen.with_huge_rewards(gen.layered_tie_game(rng)), model)
